@@ -1237,6 +1237,44 @@ def run(args):
     def near_dups(ngoals):
         printed = [g.split(" #")[0] for g in set(ngoals)]
         return len(printed) > len(set(printed))
+    def types_section(text):
+        """[(type, parent | None)] in declaration order, of one agent file"""
+        m_ = re.search(r"\(:types([^()]*)\)", text)
+        if not m_:
+            return []
+        toks, out, run_ = m_.group(1).split(), [], []
+        i = 0
+        while i < len(toks):
+            if toks[i] == "-" and i + 1 < len(toks):
+                out += [(t, toks[i + 1]) for t in run_]
+                run_, i = [], i + 2
+            else:
+                run_.append(toks[i])
+                i += 1
+        return out + [(t, None) for t in run_]
+
+    def child_first(decl):
+        pos = {t: i for i, (t, _) in enumerate(decl)}
+        return any(p in pos and pos[p] > i for i, (_, p) in enumerate(decl))
+
+    def implicit_parent(decl):
+        declared = {t for t, _ in decl}
+        return any(p and p != "object" and p not in declared for _, p in decl)
+    gen_files = {(j.get("dir"), n): t for j in jobs if j.get("kind") == "generated" for n, t in j["dfiles"].items()}
+    decls = [types_section(t) for t in gen_files.values()]
+    depth = max([len(c.split()) for r in results if "ok" in r.get("dobs", {}) for _, c in r["dobs"]["ok"]["types"]] or [0])
+    dist["type_declarations"] = {
+        "generated_agent_files": len(decls),
+        "files_declaring_some_type_before_its_parent": sum(1 for d in decls if child_first(d)),
+        "files_with_a_parent_named_on_right_hand_sides_only": sum(1 for d in decls if implicit_parent(d)),
+        "jobs_whose_first_found_file_declares_a_type_before_its_parent": sum(
+            1 for j, r in zip(jobs, results) if j.get("kind") == "generated" and r.get("dorder") and
+            child_first(types_section(j["dfiles"][r["dorder"][0]]))),
+        "deepest_ancestor_chain_in_a_combination": depth,
+        "combinations_with_a_chain_of_3_or_more": sum(
+            1 for r in results if "ok" in r.get("dobs", {}) and any(len(c.split()) >= 3 for _, c in r["dobs"]["ok"]["types"])),
+        "subtype_tables_compared_in_coq": sum(len(observed_domains(r)) for r in results if "dobs" in r),
+    }
     dist["new_classes"] = {
         "untyped_directories": len({j.get("dir") for j in jobs if j.get("untyped")}),
         "combinations_with_a_constant_of_type_object": sum(
@@ -1279,7 +1317,10 @@ def run(args):
     cov["input_distribution"] = dist
     cov["timing_s"] = timing
     cov["exhaustive"] = False    # the small scope above is complete (thorough), the generated directories are a sample
-    cov["rule"] = ("random typed domains (1-7 types in a forest, constants, 2-6 predicates, 0-3 functions, 1-6 actions with an agent "
+    cov["rule"] = ("random typed domains (1-7 types in a forest or - 40 % - mostly in chains, 3-6 levels deep; every agent file writes "
+                   "its (:types ...) section in one of the orders the language allows: parents first, every child before its parent, "
+                   "shuffled; object-parented parents left implicit - named on right-hand sides only - in 35 % of the files; "
+                   "conflict class: a file names a type as a parent and leaves its declaration to another file; constants, 2-6 predicates, 0-3 functions, 1-6 actions with an agent "
                    "parameter, numeric conditions/effects) and problems (objects, facts, fluent values, goal literals, numeric goals) split "
                    "into 1-4 overlapping per-agent files (public/private parts, :private blocks, differing :requirements, shuffled "
                    "sections); 20% of the directories carry one conflicting redefinition (predicate/constant/action/type; fluent value, object type); "
